@@ -27,6 +27,7 @@ type Agg struct {
 	Inconclusive map[string]int64
 	MaxSteps     int64
 	RaceBlocks   []string // de-duplicated race report blocks involving the library
+	RaceCases    []int    // for each block: the first case index of the worker that reported it
 	RaceRaw      int      // raw number of WARNING: DATA RACE blocks
 	Extra        map[string]any
 	mu           sync.Mutex
@@ -397,7 +398,7 @@ func runBatch(p Property, o DriveOpts, agg *Agg, sp batchSpec, proc int, race bo
 	prefix := filepath.Join(o.WorkDir, fmt.Sprintf("b%05d-p%d", sp.n, proc))
 	if race {
 		exe = o.RaceExe
-		env = append(env, "GORACE=halt_on_error=0 log_path="+prefix+".race")
+		env = append(env, "GORACE=halt_on_error=0 exitcode=0 log_path="+prefix+".race")
 	}
 	if we, ok := p.(WorkerEnv); ok {
 		env = append(env, we.Env(o.Tier, sp.n)...)
@@ -501,6 +502,13 @@ func collectRace(dir string, agg *Agg) {
 					blk = blk[:5000]
 				}
 				agg.RaceBlocks = append(agg.RaceBlocks, blk)
+				from := 0
+				if m := regexp.MustCompile(`-f(\d+)(-redo|)\.race`).FindStringSubmatch(f); m != nil {
+					from, _ = strconv.Atoi(m[1])
+				} else if m := regexp.MustCompile(`-iso(\d+)\.race`).FindStringSubmatch(f); m != nil {
+					from, _ = strconv.Atoi(m[1])
+				}
+				agg.RaceCases = append(agg.RaceCases, from)
 			}
 		}
 	}
@@ -528,7 +536,7 @@ func driveReplay(p Property, o DriveOpts) int {
 	var env []string
 	if r, ok := p.(Racer); ok && r.Race(o.Tier) && o.RaceExe != "" {
 		exe = o.RaceExe
-		env = append(env, "GORACE=halt_on_error=0 log_path="+prefix+".race")
+		env = append(env, "GORACE=halt_on_error=0 exitcode=0 log_path="+prefix+".race")
 	}
 	env = append(env, "VERIF_REPLAY=1")
 	b, timedOut, tail := spawn(p, o, exe, w.Case, w.Case+1, prefix, env, 3*watchdog(o.Tier))
